@@ -53,6 +53,72 @@ theorem splitField_append : ∀ (k v : Bytes), (∀ x ∈ k, x ≠ 58) →
     simp only [List.cons_append] at ih ⊢
     simp [splitField, hc, ih]
 
+/-! ### `appendRequestLinePart` (/repo 910b0dd) -/
+
+theorem reqLineTail_id : ∀ (p : Bytes), (∀ x ∈ p, lineSpecial x = false) → reqLineTail p = p
+  | [], _ => rfl
+  | c :: t, h => by
+    have hc := h c (by simp)
+    have ih := reqLineTail_id t (fun x hx => h x (by simp [hx]))
+    simp [reqLineTail, hc, ih]
+
+/-- the fast path changes nothing: the result is the byte-by-byte encoding of the whole part -/
+theorem reqLinePart_eq : ∀ (p : Bytes), reqLinePart p = reqLineTail p
+  | [] => rfl
+  | c :: t => by
+    cases hc : lineSpecial c with
+    | true => simp [reqLinePart, List.takeWhile, List.dropWhile, hc]
+    | false =>
+      have ih := reqLinePart_eq t
+      simp only [reqLinePart] at ih
+      simp [reqLinePart, List.takeWhile, List.dropWhile, hc, reqLineTail, ih]
+
+/-- a part without SP, CR, LF is written as it is -/
+theorem reqLinePart_id (p : Bytes) (h : ∀ x ∈ p, lineSpecial x = false) : reqLinePart p = p := by
+  rw [reqLinePart_eq]; exact reqLineTail_id p h
+
+set_option maxRecDepth 100000 in
+theorem tbl_hex_line : allBytes (fun c => !lineSpecial (upperhex (c >>> 4)) && !lineSpecial (upperhex (c &&& 15))) = true := by
+  decide +kernel
+
+/-- whatever the part holds, what is written has no SP, CR, LF -/
+theorem reqLineTail_clean : ∀ (p : Bytes), ∀ x ∈ reqLineTail p, lineSpecial x = false
+  | [], x, hx => by cases hx
+  | c :: t, x, hx => by
+    simp only [reqLineTail, List.mem_append] at hx
+    rcases hx with hx | hx
+    · cases hc : lineSpecial c with
+      | true =>
+        simp only [hc, if_true, pctEnc, List.mem_cons, List.mem_nil_iff, or_false] at hx
+        have := allBytes_spec tbl_hex_line c
+        simp only [Bool.and_eq_true, Bool.not_eq_true'] at this
+        rcases hx with hx | hx | hx
+        · subst hx; decide
+        · subst hx; exact this.1
+        · subst hx; exact this.2
+      | false =>
+        simp only [hc, Bool.false_eq_true, if_false, List.mem_singleton] at hx
+        subst hx; exact hc
+    · exact reqLineTail_clean t x hx
+
+theorem reqLinePart_clean (p : Bytes) : ∀ x ∈ reqLinePart p, x ≠ 32 ∧ x ≠ 13 ∧ x ≠ 10 := by
+  intro x hx
+  rw [reqLinePart_eq] at hx
+  have := reqLineTail_clean p x hx
+  simpa [lineSpecial, and_assoc] using this
+
+/-- the request line `RequestHeader.AppendBytes` writes never contains CR or LF -/
+theorem startLine_clean (r : ReqHdr) : ∀ x ∈ r.startLine, x ≠ 13 ∧ x ≠ 10 := by
+  intro x hx
+  have h11 : ∀ x ∈ strHTTP11, x ≠ 13 ∧ x ≠ 10 := by decide
+  simp only [ReqHdr.startLine, List.mem_append, List.mem_singleton] at hx
+  rcases hx with (((h | h) | h) | h) | h
+  · exact (reqLinePart_clean _ x h).2
+  · subst h; decide
+  · exact (reqLinePart_clean _ x h).2
+  · subst h; decide
+  · exact h11 x h
+
 theorem kept_length_le (fs : List (Bytes × Bytes)) : (kept fs).length ≤ fs.length := by
   simp only [kept, List.length_map]
   exact List.length_filter_le _ _
